@@ -94,12 +94,26 @@ package defaults
 //@ -- submitted ones, and the extra fields are whitelisted keys with their submitted values).
 //@ spec in_list(l, q) := exists j int :: 0 <= j && j < len(l) && elem(l, j) == q
 //@ func (HTTPBodyReader).Read
-//@   property C19 C17 C06 C01
+//@   property C19 C17 C06 C01 C02 C05 C12 C13
 //@   -- C01/C06: the password a login compares and a recovery hashes is the submitted one: the
 //@   -- validator's fields are the entries of the value map as read (URLValuesToMap: verbatim)
 //@   ensures[C01,C06] login_values_as_read: (page == "login" && result.1 == nil) ==> (dyntype(result.0) == "UserValues" &&
 //@       dyn(result.0, "Password") == mapget(dyn(result.0, "HTTPFormValidator.Values"), "password") &&
 //@       dyn(result.0, "PID") == mapget(dyn(result.0, "HTTPFormValidator.Values"), ite(h.UseUsername, "username", "email")))
+//@   ensures[C05,C13] token_values_as_read:
+//@       ((page == "confirm" && result.1 == nil) ==> (dyntype(result.0) == "ConfirmValues" && dyn(result.0, "Token") == mapget(dyn(result.0, "HTTPFormValidator.Values"), "cnf"))) &&
+//@       ((page == "twofactor_verify_end" && result.1 == nil) ==> (dyntype(result.0) == "ConfirmValues" && dyn(result.0, "Token") == mapget(dyn(result.0, "HTTPFormValidator.Values"), "token"))) &&
+//@       ((page == "recover_middle" && result.1 == nil) ==> (dyntype(result.0) == "RecoverMiddleValues" && dyn(result.0, "Token") == mapget(dyn(result.0, "HTTPFormValidator.Values"), "token"))) &&
+//@       ((page == "recover_start" && result.1 == nil) ==> (dyntype(result.0) == "RecoverStartValues" &&
+//@           dyn(result.0, "PID") == mapget(dyn(result.0, "HTTPFormValidator.Values"), ite(h.UseUsername, "username", "email"))))
+//@   ensures[C02,C12,C13] factor_values_as_read:
+//@       (((page == "totp2fa_confirm" || page == "totp2fa_remove" || page == "totp2fa_validate") && result.1 == nil) ==> (dyntype(result.0) == "TwoFA" &&
+//@           dyn(result.0, "Code") == mapget(dyn(result.0, "HTTPFormValidator.Values"), "code") &&
+//@           dyn(result.0, "RecoveryCode") == mapget(dyn(result.0, "HTTPFormValidator.Values"), "recovery_code"))) &&
+//@       (((page == "sms2fa_setup" || page == "sms2fa_remove" || page == "sms2fa_confirm" || page == "sms2fa_validate") && result.1 == nil) ==> (dyntype(result.0) == "SMSTwoFA" &&
+//@           dyn(result.0, "Code") == mapget(dyn(result.0, "HTTPFormValidator.Values"), "code") &&
+//@           dyn(result.0, "RecoveryCode") == mapget(dyn(result.0, "HTTPFormValidator.Values"), "recovery_code") &&
+//@           dyn(result.0, "PhoneNumber") == mapget(dyn(result.0, "HTTPFormValidator.Values"), "phone_number")))
 //@   ensures[C01,C06] recover_values_as_read: (page == "recover_end" && result.1 == nil) ==> (dyntype(result.0) == "RecoverEndValues" &&
 //@       dyn(result.0, "NewPassword") == mapget(dyn(result.0, "HTTPFormValidator.Values"), "password") &&
 //@       dyn(result.0, "Token") == mapget(dyn(result.0, "HTTPFormValidator.Values"), "token"))
@@ -161,3 +175,77 @@ package defaults
 //@   -- was submitted - no trimming, folding or truncation on the way)
 //@   invariant loop#1 verbatim_so_far: forall q string :: maphas(values, q) ==> (maphas(form, q) && mapget(values, q) == mapget(form, q)[0])
 //@   ensures verbatim: forall q string :: maphas(result, q) ==> (maphas(form, q) && mapget(result, q) == mapget(form, q)[0])
+//
+//@ -- The value getters of the default validators: what the modules read through the value
+//@ -- interfaces (pid, password, token, code, remember flag) is the field the reader filled
+//@ -- from the submitted values (Read: *_values_as_read) - nothing is folded, swapped or defaulted.
+//@ func (UserValues).GetPID
+//@   property C01 C19
+//@   ensures field_as_is: result == u.PID
+//@ func (UserValues).GetPassword
+//@   property C01 C06 C19
+//@   ensures field_as_is: result == u.Password
+//@ func (UserValues).GetValues
+//@   property C19
+//@   ensures field_as_is: result == u.Arbitrary
+//@ func (UserValues).GetShouldRemember
+//@   property C07
+//@   -- C07: a remember cookie is only issued when the user asked for it - the submitted "rm"
+//@   -- value is literally "true"
+//@   ensures only_when_asked: result <=> (maphas(u.HTTPFormValidator.Values, CookieRemember) && mapget(u.HTTPFormValidator.Values, CookieRemember) == "true")
+//@ func (ConfirmValues).GetToken
+//@   property C05 C13
+//@   ensures field_as_is: result == c.Token
+//@ func (RecoverStartValues).GetPID
+//@   property C05
+//@   ensures field_as_is: result == r.PID
+//@ func (RecoverMiddleValues).GetToken
+//@   property C05
+//@   ensures field_as_is: result == r.Token
+//@ func (RecoverEndValues).GetToken
+//@   property C05 C06
+//@   ensures field_as_is: result == r.Token
+//@ func (RecoverEndValues).GetPassword
+//@   property C05 C06
+//@   ensures field_as_is: result == r.NewPassword
+//@ func (TwoFA).GetCode
+//@   property C02 C12 C13
+//@   ensures field_as_is: result == t.Code
+//@ func (TwoFA).GetRecoveryCode
+//@   property C02 C12 C13
+//@   ensures field_as_is: result == t.RecoveryCode
+//@ func (SMSTwoFA).GetCode
+//@   property C02 C12 C13
+//@   ensures field_as_is: result == s.Code
+//@ func (SMSTwoFA).GetRecoveryCode
+//@   property C02 C12 C13
+//@   ensures field_as_is: result == s.RecoveryCode
+//@ func (SMSTwoFA).GetPhoneNumber
+//@   property C13
+//@   ensures field_as_is: result == s.PhoneNumber
+//
+//@ -- The dispatcher in front of the two redirect modes (what the modules call through the
+//@ -- HTTPRedirector interface): whichever mode it picks, the guard, the status and the
+//@ -- "always answers" clauses hold for the call as a whole.
+//@ func (*Redirector).Redirect
+//@   property C15 C10 C08
+//@   ensures[C15] guard: (each HTTPRedirect(_, ?url, ?code) => code == 302 && (url == ro.RedirectPath || !offsite_cleaned(url))) &&
+//@       (each Render(_, ?data) => (mapget(data, "location") == ro.RedirectPath || !offsite(mapget(data, "location"))))
+//@   ensures[C15] param_only_when_asked: (each HTTPRedirect(_, ?url, _) => (!ro.FollowRedirParam ==> url == ro.RedirectPath)) &&
+//@       (each Render(_, ?data) => (!ro.FollowRedirParam ==> mapget(data, "location") == ro.RedirectPath))
+//@   ensures[C10] always_answers: !panics ==> ((emits HTTPRedirect(_, _, _)) || (emits Write(_, _)) || (emits Render(_, _) -> (_, _, ?e) :: e != nil && result == e))
+//@   ensures[C08] status_as_asked: each WriteHeader(_, ?cd) =>
+//@       cd == ite(deref(r).CorceRedirectTo200 && (ro.Code == 307 || ro.Code == 308), 200, ro.Code)
+//@
+//@ func (ErrorHandler).Wrap
+//@   property C18 C17
+//@   -- the handler that is mounted runs exactly the function it was given (errorHandler.ServeHTTP
+//@   -- is under contract: the error is logged, nothing else is written)
+//@   ensures wraps_given: dyntype(result) == "errorHandler" && dyn(result, "Handler") == handler && dyn(result, "LogWriter") == e.LogWriter
+//
+//@ func (SMTPMailer).Send
+//@   property C17
+//@   -- C17: a mail (which may carry a token) is handed to the SMTP server once, for exactly the
+//@   -- recipients and sender the caller named
+//@   ensures[C17] recipients_as_given: each SMTP.SendMail(?srv, ?from, ?to) => srv == s.Server && from == mail.From && to == mail.To && !(before SMTP.SendMail(_, _, _))
+//@   ensures[C17] no_secret_leak: secrets_clean
